@@ -506,12 +506,15 @@ def _assembly(ctx):
             bad=["for _R_row in _R_parsed.pop('rows'):\n    pass", "for _R_row in _R_parsed['rows']:\n    pass",
                  "for _R_row in _R_parsed.pop('rows', []):\n    pass", "for _R_row in _R_parsed.get('rows'):\n    pass",
                  "for _R_row in _R_parsed.get('rows', []):\n    pass"])
-    if sc.need(['_R_prow = {_R_rcol: parse_embedded_scalar(_R_rvalue, version=_R_version) for (_R_rcol, _R_rvalue) in _R_row.items()}'],
-               'every cell of a row is decoded (dict comprehension over items())', 'cells are dropped', optional=True) is None:
-        sc.need(['for (_R_rcol, _R_rvalue) in _R_row.items():\n    pass'], 'every key of a row is visited', 'cells are dropped')
-        sc.need(['_R_prow[_R_rcol] = parse_embedded_scalar(_R_rvalue, version=_R_version)'], 'every cell of a row is decoded',
-                'cells are dropped or stored under the wrong column')
-    sc.need(['_R_grid.append(_R_prow)'], 'rows are appended in document order', 'rows are lost')
+    if sc.need(['_R_grid.append({_R_rcol: parse_embedded_scalar(_R_rvalue, version=_R_version) for (_R_rcol, _R_rvalue) in _R_row.items()})'],
+               'every cell of a row is decoded and the row appended (dict comprehension over items())', 'cells are dropped',
+               optional=True) is None:
+        if sc.need(['_R_prow = {_R_rcol: parse_embedded_scalar(_R_rvalue, version=_R_version) for (_R_rcol, _R_rvalue) in _R_row.items()}'],
+                   'every cell of a row is decoded (dict comprehension over items())', 'cells are dropped', optional=True) is None:
+            sc.need(['for (_R_rcol, _R_rvalue) in _R_row.items():\n    pass'], 'every key of a row is visited', 'cells are dropped')
+            sc.need(['_R_prow[_R_rcol] = parse_embedded_scalar(_R_rvalue, version=_R_version)'], 'every cell of a row is decoded',
+                    'cells are dropped or stored under the wrong column')
+        sc.need(['_R_grid.append(_R_prow)'], 'rows are appended in document order', 'rows are lost')
     sc.need(['return _R_grid'], 'the assembled grid is returned', 'parse returns something else than the grid')
     # writer side shape
     try:
